@@ -18,6 +18,7 @@ Decided:
     PCI common configuration offset 21) - shared register traces of C10.M2 / C11.W3.
  G4 direction typing (thorough tier, compile-fail witnesses): read_config! on a WriteOnly field and write_config! on a
     ReadOnly field do not type-check.
+ G7 a config window carved out of a (pointer, size) region at a constant offset ends inside the region (folded over sizes).
 """
 from .common import *
 from ..paths import *
